@@ -111,6 +111,10 @@ def gen_plan(ch: Chooser, tier: str) -> dict[str, Any]:
     if ch.bool(0.3):
         actions.append({'t': round(ch.float(0.2, t_trig + 1.0), 6), 'do': 'create', 'kind': 'widgets',
                         'body': {'metadata': {'name': 'late'}, 'spec': {'a': 9}}})
+    if trigger in ('stop', 'cancel') and not during_startup and any(h['kind'] == 'daemon' for h in handlers) and ch.bool(0.35):
+        # targeted timing: the stop comes while the daemons of an object are in the middle of being stopped for another
+        # reason (the object has just been marked for deletion) -- their stages must not be cut short by the exit
+        actions.append({'t': round(max(0.1, t_trig - ch.choice([0.01, 0.1, 0.3, 0.8])), 6), 'do': 'delete', 'name': 'w0'})
     actions.sort(key=lambda a: a['t'])
     plan.update({
         'trigger': trigger, 't_trigger': t_trig, 'clusterwide': clusterwide,
